@@ -5,6 +5,7 @@ import (
 	"fmt"
 	"math/rand"
 	"os"
+	"path"
 	"path/filepath"
 	"sort"
 	"strings"
@@ -19,6 +20,7 @@ import (
 // C15: accounts - what can log in = what is listed = what is on disk (DESIGN §6 C15).
 
 var c15Logins = []string{"alice", "bob", "Carol Smith", "dave.1", "eve-x", "zo\xc3\xab", "UPPER", "x", "trent_2", "mallory+1", ".ops", "..dots", " lead", "trail ", "#hash", "a.yaml"}
+
 // passwords made only of 0xFF bytes are left out: on the wire they are all-zero bytes, and bcrypt's cyclic key schedule
 // cannot tell an all-zero key of any length from the empty password (an artefact of the scheme, not of the server)
 var c15Pws = []string{"", "pw", "secret password", "p\x00q", "\xfe\x01\x7f", "\xffabc", "\xffz\xff", "0123456789012345678901234567890123456789012345678901234567890123456789ab"}
@@ -48,7 +50,7 @@ func genC15(rng *rand.Rand, c *Case) {
 	for i := 0; i < n; i++ {
 		acc := rng.Intn(1 << 20)
 		pw := rng.Intn(len(c15Pws))
-		switch k := rng.Intn(12); {
+		switch k := rng.Intn(13); {
 		case k < 3 || len(live) == 0:
 			if l := take(); l >= 0 {
 				c.Ops = append(c.Ops, Op{K: []string{"newuser", "batch-create"}[rng.Intn(2)], N: []int{l, acc, pw}})
@@ -66,6 +68,8 @@ func genC15(rng *rand.Rand, c *Case) {
 				dead = append(dead, live[j])
 				live = append(live[:j], live[j+1:]...)
 			}
+		// (renames to another spelling of the same file name - "/x", "x/", "./x" - are not generated: such logins are
+		// not legal file names, which the property's quantifier requires; C04 covers the authentication side of them)
 		case k < 9:
 			if l := take(); l >= 0 {
 				j := rng.Intn(len(live))
@@ -80,6 +84,24 @@ func genC15(rng *rand.Rand, c *Case) {
 			live = append(live[:j], live[j+1:]...)
 		case k < 11:
 			c.Ops = append(c.Ops, Op{K: "restart"})
+		case k < 12 && rng.Intn(2) == 0 && len(live) >= 2:
+			// a batch whose first record renames (or edits in place, naming the login it edits) and whose later
+			// records modify another account and create a third
+			if l := take(); l >= 0 {
+				j, m := rng.Intn(len(live)), rng.Intn(len(live))
+				cl := take()
+				if j != m && cl >= 0 {
+					inplace := rng.Intn(2)
+					c.Ops = append(c.Ops, Op{K: "batch-rename-then", N: []int{live[j], l, live[m], cl, acc, pw, inplace}})
+					if inplace == 0 {
+						dead = append(dead, live[j])
+						live[j] = l
+					} else {
+						free = append(free, l)
+					}
+					live = append(live, cl)
+				}
+			}
 		default:
 			// a mixed batch: create one, modify one, delete one in a single request
 			if l := take(); l >= 0 && len(live) >= 2 {
@@ -131,6 +153,7 @@ func runC15(w *World) {
 		return v
 	}
 
+	spelling := map[int]string{} // pool index -> current spelling of that login (after a rename to an equivalent spelling)
 	var admin *Client
 	loginAdmin := func() bool {
 		probeSeq++
@@ -242,7 +265,7 @@ func runC15(w *World) {
 				w.Violate("c15-file-for-nonexistent-account", "%s: file %q holds login %q, which does not exist", when, e.Name(), af.Login)
 				return false
 			}
-			if e.Name() != af.Login+".yaml" {
+			if e.Name() != strings.TrimPrefix(path.Join("/", af.Login)+".yaml", "/") {
 				w.Violate("c15-file-name-login-mismatch", "%s: file %q holds login %q", when, e.Name(), af.Login)
 				return false
 			}
@@ -383,7 +406,12 @@ func runC15(w *World) {
 				}
 				return true
 			}
-			L := func(i int) string { return c15Logins[i] }
+			L := func(i int) string {
+				if sp, ok := spelling[i]; ok {
+					return sp
+				}
+				return c15Logins[i]
+			}
 			join2 := func() {
 				for !done2 {
 					simrt.Park(&qMain)
@@ -458,6 +486,65 @@ func runC15(w *World) {
 				m.Name, m.Access = name, a
 				applyPw(&m, mode, pw)
 				model[nl] = m
+			case "rename-equivalent":
+				l := L(op.N[0])
+				m, exists := model[l]
+				if !exists || strings.ContainsAny(l, "/") || strings.HasPrefix(l, ".") {
+					continue
+				}
+				nl := []string{"/" + l, l + "/", "./" + l}[op.N[1]]
+				a, pw, mode := accessFromInt(op.N[2]), c15Pws[op.N[3]], op.N[4]
+				name := fmt.Sprintf("Respelled %d", step)
+				note(nl, m.Pw)
+				if mode == PwNew {
+					note(nl, pw)
+					note(l, pw)
+				}
+				for p := range everPw[l] {
+					note(nl, p)
+				}
+				if !okRep(admin.UpdateUsers([]UserEdit{{Kind: "rename", Login: l, NewLogin: nl, Name: name, Access: a, PwMode: mode, Pw: pw}})) {
+					return
+				}
+				delete(model, l)
+				m.Name, m.Access = name, a
+				applyPw(&m, mode, pw)
+				model[nl] = m
+				spelling[op.N[0]] = nl
+				w.Probe("renamed_to_equivalent_spelling")
+			case "batch-rename-then":
+				l, nl, ml, cl := L(op.N[0]), L(op.N[1]), L(op.N[2]), L(op.N[3])
+				a, pw, inplace := accessFromInt(op.N[4]), c15Pws[op.N[5]], op.N[6] == 1
+				m1, e1 := model[l]
+				_, e2 := model[nl]
+				m3, e3 := model[ml]
+				_, e4 := model[cl]
+				if !e1 || e2 || !e3 || e4 || l == ml || nl == cl {
+					continue
+				}
+				if inplace {
+					nl = l // the record names the login it edits (what the 1.5+ client sends for a plain edit)
+				}
+				note(nl, m1.Pw)
+				for p := range everPw[l] {
+					note(nl, p)
+				}
+				note(cl, pw)
+				edits := []UserEdit{
+					{Kind: "rename", Login: l, NewLogin: nl, Name: "First of batch", Access: a, PwMode: PwUnchanged},
+					{Kind: "modify", Login: ml, Name: "Second of batch", Access: a, PwMode: PwUnchanged},
+					{Kind: "create", Login: cl, Name: "Third of batch", Access: a, PwMode: PwNew, Pw: pw},
+				}
+				if !okRep(admin.UpdateUsers(edits)) {
+					return
+				}
+				delete(model, l)
+				m1.Name, m1.Access = "First of batch", a
+				model[nl] = m1
+				m3.Name, m3.Access = "Second of batch", a
+				model[ml] = m3
+				model[cl] = acctModel{Name: "Third of batch", Access: a, Pw: pw}
+				w.Probe("batches_with_rename_record_first")
 			case "deluser", "batch-delete":
 				l := L(op.N[0])
 				if _, exists := model[l]; !exists {
